@@ -285,6 +285,9 @@ let () =
   reg "fk1" (fun a -> match a with
     | [e; iv; vals] -> show (frun1 (z_of_hex e) (z_of_hex iv) (zlist_of_string vals))
     | _ -> failwith "fk1");
+  reg "fk2" (fun a -> match a with
+    | [e; iv; r2; vals] -> show (frun2 (z_of_hex e) (z_of_hex iv) (nat_of_int (int_of_string ("0x" ^ r2))) (zlist_of_string vals))
+    | _ -> failwith "fk2");
   reg "dk1" (fun a -> match a with
     | [e; iv; vals] -> show (drun1 (z_of_hex e) (z_of_hex iv) (zlist_of_string vals))
     | _ -> failwith "dk1")
